@@ -90,5 +90,13 @@ func (s *Struct) validate() error {
 			return fmt.Errorf("%v: %w", s.Def.Name, err)
 		}
 	}
+
+	// Check the struct does not contain itself
+	for _, field := range s.Fields.Values() {
+		if field.contains(s, make(map[*Struct]struct{})) {
+			return fmt.Errorf("%v.%v: recursive struct, a struct cannot contain itself",
+				s.Def.Name, field.Name)
+		}
+	}
 	return nil
 }
